@@ -596,9 +596,23 @@ static void runCase(const nd::Program &prog, const std::string &v, int slack, co
 		dump(design.getCircuit(), "postprocess:done");
 		if (extra) {
 			auto &c = design.getCircuit();
-			// what the VHDL export does first when a synthesis tool is targeted (SynthesisTool::prepareCircuit is public)
-			{ tighten(c, slack); out << "pass " << tag << " " << boundary << " enter:IntelQuartus.prepareCircuit" << std::endl; scl::IntelQuartus q; q.prepareCircuit(c); dump(c, "extra:IntelQuartus.prepareCircuit"); }
-			{ tighten(c, slack); out << "pass " << tag << " " << boundary << " enter:XilinxVivado.prepareCircuit" << std::endl; scl::XilinxVivado x; x.prepareCircuit(c); dump(c, "extra:XilinxVivado.prepareCircuit"); }
+			// what the VHDL export does first when a synthesis tool is targeted (SynthesisTool::prepareCircuit is public).
+			// Each runs in a forked copy of this process: the circuit used by the following steps stays the post-processed one,
+			// and a crash in one tool's preparation does not hide the other steps.
+			auto isolated = [&](const std::string &step, const std::function<void()> &body) {
+				out << "pass " << tag << " " << boundary << " enter:" << step << std::endl;
+				pid_t pid = fork();
+				if (pid == 0) { alarm(20); tighten(c, slack); body(); dump(c, "extra:" + step); out.flush(); poison::drain(); _exit(0); }
+				int st = 0;
+				if (pid > 0 && waitpid(pid, &st, 0) >= 0 && (WIFSIGNALED(st) || (WIFEXITED(st) && WEXITSTATUS(st) != 0))) {
+					out.seekp(0, std::ios::end);
+					out << "\nCRASH " << tag << " " << (WIFSIGNALED(st) ? "signal=" + std::to_string(WTERMSIG(st)) : "exit=" + std::to_string(WEXITSTATUS(st))) << " in=" << step << std::endl;
+				}
+				out.seekp(0, std::ios::end);
+				boundary++;
+			};
+			isolated("IntelQuartus.prepareCircuit", [&] { gtry::IntelQuartus qt; qt.prepareCircuit(c); });
+			isolated("XilinxVivado.prepareCircuit", [&] { gtry::XilinxVivado xv; xv.prepareCircuit(c); });
 			for (int k = 0; k < 2; k++) { tighten(c, slack); Subnet all = Subnet::all(c); c.optimizeSubnet(all); dump(c, "extra:optimizeSubnet#" + std::to_string(k)); }
 			c.shuffleNodes(); dump(c, "extra:shuffleNodes");
 			{ tighten(c, slack); Subnet all = Subnet::all(c); c.optimizeSubnet(all); dump(c, "extra:optimizeSubnet-after-shuffle"); }
